@@ -947,11 +947,35 @@ fn query(pool: &[Option<Obj>], toks: &[&str]) -> String {
     }
 }
 
+/// a node-by-node rebuilt copy: equal to the argument, sharing no allocation with it (tables and
+/// diagrams own their vectors, so `clone` already is one)
+fn deep_e(e: &E) -> E {
+    match e.node() {
+        ExpressionNode::Literal(n) => ExpressionNode::Literal(n.clone()).into(),
+        ExpressionNode::Constant(b) => ExpressionNode::Constant(*b).into(),
+        ExpressionNode::Not(x) => ExpressionNode::Not(deep_e(x)).into(),
+        ExpressionNode::And(es) => ExpressionNode::And(es.iter().map(deep_e).collect()).into(),
+        ExpressionNode::Or(es) => ExpressionNode::Or(es.iter().map(deep_e).collect()).into(),
+    }
+}
+fn deep_pool(pool: &[Option<Obj>]) -> Vec<Option<Obj>> {
+    pool.iter()
+        .map(|o| match o {
+            Some(Obj::E(e)) => Some(Obj::E(deep_e(e))),
+            Some(Obj::T(t)) => Some(Obj::T(t.clone())),
+            Some(Obj::B(b)) => Some(Obj::B(b.clone())),
+            None => None,
+        })
+        .collect()
+}
+
 fn main() {
     std::panic::set_hook(Box::new(|_| {}));
     let mut args: Vec<String> = std::env::args().collect();
     // --twice: every instruction and query is executed twice in this process and the two results
-    // must be equal (determinism within a process)
+    // must be equal (determinism within a process). The second execution gets *equal arguments that
+    // are different objects*: a node-by-node rebuilt copy of every register, each register separately,
+    // so no two operands share an allocation there even when they do in the first execution.
     let twice = args.iter().any(|a| a == "--twice");
     args.retain(|a| a != "--twice");
     let input: Box<dyn BufRead> = if args.len() > 1 {
@@ -982,7 +1006,8 @@ fn main() {
                 let res = catch_unwind(AssertUnwindSafe(|| exec(&pool, &toks[1..])));
                 let mut variant = String::new();
                 if twice {
-                    let again = catch_unwind(AssertUnwindSafe(|| exec(&pool, &toks[1..])));
+                    let copies = deep_pool(&pool);
+                    let again = catch_unwind(AssertUnwindSafe(|| exec(&copies, &toks[1..])));
                     let sig = |r: &std::thread::Result<Step>| match r {
                         Ok(Step::Ok(o)) => format!("ok {} {}", show_struct(o), match o { Obj::E(e) => format!("{:?}", e), Obj::T(t) => format!("{:?}", t), Obj::B(b) => format!("{:?}", b) }),
                         Ok(Step::Err) => "err".to_string(),
@@ -1027,7 +1052,8 @@ fn main() {
                     Err(_) => "panic".to_string(),
                 };
                 if twice {
-                    let again = match catch_unwind(AssertUnwindSafe(|| query(&pool, &toks[1..]))) {
+                    let copies = deep_pool(&pool);
+                    let again = match catch_unwind(AssertUnwindSafe(|| query(&copies, &toks[1..]))) {
                         Ok(s) => s,
                         Err(_) => "panic".to_string(),
                     };
